@@ -553,5 +553,12 @@ def main(tier, seed, replay=None):
         "atomicity is judged per session object (copies of one session held by different requests after an eviction are different objects)",
         "the persistence layer is the harness's honest store behind one mutex; user objects are immutable",
     ]
+    if not replay:
+        # one object per cached session: without it "atomic per session object" says nothing about the session
+        from . import concrace
+        try:
+            concrace.run(rep, "C15", "load-race", tier, seed, [900])
+        except env.BuildError:
+            pass
     facts.report_fact_failures(rep, "C15", fact_msgs)
     return rep.finish()
